@@ -43,3 +43,25 @@ Theorem C28_recognisers_decide : forall s : list N,
   (recog_user s = true <-> L_user s) /\ (recog_rfc1123 s = true <-> L_rfc1123 s).
 Proof. intros s. split; [apply recog_user_iff | apply recog_rfc1123_iff]. Qed.
 Print Assumptions C28_recognisers_decide.
+
+(** The explicit clause of the statement: a string containing a control character (code point below 32, or DEL) or any
+    non-ASCII code point ANYWHERE — in particular one ending in a newline — is accepted by neither validator. *)
+Theorem C28_no_control_or_non_ascii : forall (s1 s2 : list N) (c : N), (c < 32 \/ 127 <= c) ->
+  ~ py_accepts C28.Gen.secret_mode C28.Gen.secret_regex (s1 ++ c :: s2) /\
+  (forall py_isdigit py_islower : N -> bool,
+     (forall c, c < 128 -> py_isdigit c = ascii_isdigit c) ->
+     (forall c, c < 128 -> py_islower c = ascii_islower c) ->
+     C28.Gen.is_valid_username py_isdigit py_islower (s1 ++ c :: s2) = false).
+Proof.
+  intros s1 s2 c Hc.
+  assert (Hbad : lower_alnum c = false /\ is_dot_or_hyphen c = false /\ is_hyphen c = false).
+  { unfold lower_alnum, ascii_islower, ascii_isdigit, is_dot_or_hyphen, is_hyphen. repeat split; lia. }
+  destruct Hbad as [B1 [B2 B3]].
+  split.
+  - intros H. apply (proj1 (C28_accepted_alphabet _)) in H. destruct H as [_ F].
+    rewrite Forall_forall in F. specialize (F c (in_elt c s1 s2)). destruct F as [F|F]; congruence.
+  - intros d l Hd Hl. destruct (C28.Gen.is_valid_username d l (s1 ++ c :: s2)) eqn:E; [|reflexivity]. exfalso.
+    apply (proj2 (C28_accepted_alphabet _) d l Hd Hl) in E. destruct E as [_ F].
+    rewrite Forall_forall in F. specialize (F c (in_elt c s1 s2)). destruct F as [F|F]; congruence.
+Qed.
+Print Assumptions C28_no_control_or_non_ascii.
